@@ -4,7 +4,8 @@ cd "$(dirname "$(readlink -f "$0")")" || exit 1
 ROOT=$(pwd); export VERIF_ROOT="$ROOT"
 export GOFLAGS=-mod=mod GOPROXY=off GOSUMDB=off GOTOOLCHAIN=local
 export GOCACHE=${GOCACHE:-$ROOT/.build/gocache}
-mkdir -p .build evidence
+export GOTMPDIR=${GOTMPDIR:-$ROOT/.build/gotmp}
+mkdir -p .build evidence "$GOTMPDIR"
 cp /repo/go.sum go.sum.repo 2>/dev/null
 [ -f go.sum ] || cp /repo/go.sum go.sum
 go build -o .build/mkoverlay ./engine/mkoverlay || exit 1
